@@ -247,6 +247,79 @@ func runFunToken(r *hx.R, n int, w *hx.W, _ []string) error {
 				return "ok"
 			}
 			c := r.Pick(20)
+			// state-aware choice (two thirds of the steps): an operation on an existing mapping by a holder of the asset, with an
+			// amount it can afford — so that round trips in both directions actually happen
+			smart := ""
+			var smartHolder, smartTok int
+			var smartDenom string
+			var smartMax int64
+			if s >= 2 && r.Chance(2, 3) {
+				type cand struct {
+					kind   string
+					holder int
+					tok    int
+					denom  string
+					max    int64
+				}
+				var cands []cand
+				sdb := k.NewStateDB(ctx, statedb.NewEmptyTxConfig(gethcommon.BytesToHash(ctx.HeaderHash())))
+				evmObj := k.NewEVM(ctx, evmtest.MOCK_GETH_MESSAGE, k.GetEVMConfig(ctx), evm.NewNoOpTracer(), sdb)
+				for _, ft := range k.FunTokens.Iterate(ctx, collections.Range[[]byte]{}).Values() {
+					t := -1
+					for i := range toks {
+						if toks[i] == ft.Erc20Addr.Address {
+							t = i
+						}
+					}
+					for _, h := range []int{1, 2, 3, 4} {
+						if b := deps.App.BankKeeper.GetBalance(ctx, accts[h].nibi, ft.BankDenom).Amount; b.IsPositive() {
+							m := int64(1 << 40)
+							if b.IsInt64() {
+								m = b.Int64()
+							}
+							cands = append(cands, cand{"sendToEvm", h, t, ft.BankDenom, m})
+							if h != 4 {
+								cands = append(cands, cand{"convert", h, t, ft.BankDenom, m})
+							}
+						}
+						if t >= 0 {
+							if b, err := k.ERC20().BalanceOf(toks[t], accts[h].eth, ctx, evmObj); err == nil && b.Sign() > 0 {
+								m := int64(1 << 40)
+								if b.IsInt64() {
+									m = b.Int64()
+								}
+								cands = append(cands, cand{"sendToBank", h, t, ft.BankDenom, m})
+							}
+						}
+					}
+				}
+				k.Bank.StateDB = nil
+				if len(cands) > 0 {
+					cd := cands[r.Pick(len(cands))]
+					smart, smartHolder, smartTok, smartDenom, smartMax = cd.kind, cd.holder, cd.tok, cd.denom, cd.max
+					if smart == "convert" {
+						c = 4
+					} else {
+						c = 7
+					}
+				}
+			}
+			smartAmt := func() int64 {
+				hi := smartMax
+				if hi > 60 {
+					hi = 60
+				}
+				if r.Chance(1, 10) {
+					return smartMax + 1
+				}
+				return r.Range(1, hi)
+			}
+			smartTo := func() int {
+				if r.Chance(1, 8) {
+					return r.Pick(len(accts))
+				}
+				return 1 + r.Pick(4)
+			}
 			// a history opens with the creation of mappings (most of the time), so that the rest has something to work on
 			preCoin, preTok := "", -1
 			if s < 4 && r.Chance(3, 4) {
@@ -301,6 +374,9 @@ func runFunToken(r *hx.R, n int, w *hx.W, _ []string) error {
 				}
 				d := dl[r.Pick(len(dl))]
 				a := amt()
+				if smart == "convert" {
+					from, d, a, to = smartHolder, smartDenom, smartAmt(), smartTo()
+				}
 				op = fmt.Sprintf("ft convert %d %s %d %d", from, denomName(d), a, to)
 				cctx, write := ctx.CacheContext()
 				var err error
@@ -321,24 +397,43 @@ func runFunToken(r *hx.R, n int, w *hx.W, _ []string) error {
 				via := []string{"top", "proxy", "revert"}[r.Pick(3)]
 				caller := 1 + r.Pick(3)
 				eoa := caller
+				a := amt()
+				to := r.Pick(len(accts))
+				method := r.Pick(3)
+				if smart == "sendToBank" || smart == "sendToEvm" {
+					if smartHolder == 4 {
+						via = []string{"proxy", "proxy", "proxy", "revert"}[r.Pick(4)]
+					} else {
+						via, caller, eoa = "top", smartHolder, smartHolder
+					}
+					a, to = smartAmt(), smartTo()
+					method = 0
+					if smart == "sendToEvm" {
+						method = 1
+					}
+				}
 				if via != "top" {
 					caller = 4
 				}
 				var in []byte
-				a := amt()
-				to := r.Pick(len(accts))
 				toS, form := toForm(to)
 				dl := append([]string{}, coinDenoms...)
 				for t := range toks {
 					dl = append(dl, denomOfTok(t))
 				}
-				switch r.Pick(3) {
+				switch method {
 				case 0:
 					t := r.Pick(len(toks))
+					if smart == "sendToBank" {
+						t = smartTok
+					}
 					in, _ = funtokenABI.Pack("sendToBank", toks[t], big.NewInt(a), toS)
 					op = fmt.Sprintf("ft pc %s %d sendToBank %d %d %d %s", via, caller, t, a, to, form)
 				case 1:
 					d := dl[r.Pick(len(dl))]
+					if smart == "sendToEvm" {
+						d = smartDenom
+					}
 					in, _ = funtokenABI.Pack("sendToEvm", d, big.NewInt(a), toS)
 					op = fmt.Sprintf("ft pc %s %d sendToEvm %s %d %d %s", via, caller, denomName(d), a, to, form)
 				default:
